@@ -447,12 +447,14 @@ func (g *Generator) generateBindingFile(file *protogen.File) error {
 	gf.P("bodyBytes, err := io.ReadAll(r.Body)")
 	gf.P("r.Body = io.NopCloser(bytes.NewReader(bodyBytes))")
 	gf.P()
-	gf.P("if len(bodyBytes) == 0 {")
-	gf.P("return nil")
+	gf.P("// A body that could not be read completely is never decoded: a truncated")
+	gf.P("// protobuf message can still parse, as a different message.")
+	gf.P("if err != nil {")
+	gf.P(`return fmt.Errorf("could not read request body: %w", err)`)
 	gf.P("}")
 	gf.P()
-	gf.P("if err != nil && !errors.Is(err, io.ErrUnexpectedEOF) {")
-	gf.P(`return fmt.Errorf("could not read request body: %w", err)`)
+	gf.P("if len(bodyBytes) == 0 {")
+	gf.P("return nil")
 	gf.P("}")
 	gf.P()
 	gf.P("protoRequest, ok := any(toBind).(proto.Message)")
